@@ -51,17 +51,26 @@ Definition outcome_eqb (a b : outcome) : bool :=
   end.
 
 (* C06, first clause, for one read against a history hs (hs[k] = state after k steps):
-   its result is the abstract result in some state current between invoke and return *)
+   its result is the abstract result in some state current between invoke and return.
+   A read that overlaps Close may also return ErrClosed from the moment Close has set the
+   closed flag (Close takes effect somewhere between its invoke and its return; the state
+   object is swapped later than the flag is set, see Props/C06.v, C06_ex_close_window). *)
+Definition lin_at (g : shared) (o : op) (res : outcome) : Prop :=
+  spec_read g o = Some res \/ (res = ErrClosed /\ g_closed g = true).
+
 Definition lin_read (hs : list sys) (e : read_ev) : Prop :=
   exists k, r_inv e <= k <= r_ret e /\
-            exists s, nth_error hs k = Some s /\ spec_read (sh s) (r_op e) = Some (r_res e).
+            exists s, nth_error hs k = Some s /\ lin_at (sh s) (r_op e) (r_res e).
+
+Definition lin_at_b (g : shared) (o : op) (res : outcome) : bool :=
+  match spec_read g o with
+  | Some r => outcome_eqb r res
+  | None => false
+  end || (outcome_eqb res ErrClosed && g_closed g).
 
 Definition lin_read_b (hs : list sys) (e : read_ev) : bool :=
   existsb (fun k => match nth_error hs k with
-                    | Some s => match spec_read (sh s) (r_op e) with
-                                | Some r => outcome_eqb r (r_res e)
-                                | None => false
-                                end
+                    | Some s => lin_at_b (sh s) (r_op e) (r_res e)
                     | None => false
                     end) (seq (r_inv e) (S (r_ret e - r_inv e))).
 
@@ -93,13 +102,19 @@ Definition events (s : sys) (sch : list tid) : list read_ev := events_aux s sch 
 Definition lin_check (s : sys) (sch : list tid) : bool :=
   let hs := states_along s sch in forallb (lin_read_b hs) (events s sch).
 
-(* ---- the C06 statements (see Props/C06.v for what is proved) -------------------------- *)
+(* ---- the C06 statements (proved in Conc/ReadLin2.v and Conc/CloseThm2.v, exported by
+   Props/C06.v) ------------------------------------------------------------------------------
+   single writer: only thread w issues StoreLogs / DeleteRange *)
+Definition one_writer (w : tid) (progs extra : list (list op)) : Prop :=
+  forall t p, nth_error (progs ++ [] :: extra) t = Some p -> t <> w ->
+              forallb (fun o => negb (match o with OStore _ _ _ | ODelete _ | OTrunc _ => true | _ => false end)) p = true.
+
 (* every completed read of every schedule is linearizable against the writer *)
 Definition reads_linearizable_statement : Prop :=
-  forall progs extra sch e,
+  forall w progs extra sch e, one_writer w progs extra ->
     In e (events (init progs extra) sch) -> lin_read (states_along (init progs extra) sch) e.
 
 (* no read ever goes through a closed file handle *)
 Definition stable_entry_intact_statement : Prop :=
-  forall progs extra sch t th,
+  forall w progs extra sch t th, one_writer w progs extra ->
     nth_error (ths (run step (init progs extra) sch)) t = Some th -> ~ In IOErr (t_outs th).
